@@ -423,9 +423,111 @@ const MALFORMED_ITEMS: &[&str] = &[
     "subpattern a = \"x\", subpattern a = \"y\"", "subpattern a-b = \"x\"", "error(E, callback = |a, b| 1)", "error(E, f, callback = g)", "skip(\"a\", f, callback = g)",
 ];
 
+/// Complete malformed sources that do not fit the templates (bare attributes, const generics, legacy
+/// attributes, malformed nested groups, bad subpattern names, patterns that do not compile).
+const RAW_MALFORMED: &[&str] = &[
+    "#[derive(Logos)]\n#[logos]\nenum T { #[token(\"a\")] A }\n",
+    "#[derive(Logos)]\n#[logos = \"x\"]\nenum T { #[token(\"a\")] A }\n",
+    "#[derive(Logos)]\nenum T { #[token] A }\n",
+    "#[derive(Logos)]\nenum T { #[regex = \"a\"] A }\n",
+    "#[derive(Logos)]\nenum T<const N: usize> { #[token(\"a\")] A }\n",
+    "#[derive(Logos)]\nenum T { #[error] E, #[token(\"a\")] A }\n",
+    "#[derive(Logos)]\nenum T { #[end] E, #[token(\"a\")] A }\n",
+    "#[derive(Logos)]\n#[logos(error(E, callback))]\nenum T { #[token(\"a\")] A }\n",
+    "#[derive(Logos)]\n#[logos(error(E, unknown = 1))]\nenum T { #[token(\"a\")] A }\n",
+    "#[derive(Logos)]\n#[logos(error(E f))]\nenum T { #[token(\"a\")] A }\n",
+    "#[derive(Logos)]\n#[logos(error(E, f, =))]\nenum T { #[token(\"a\")] A }\n",
+    "#[derive(Logos)]\n#[logos(export_dir = 1)]\nenum T { #[token(\"a\")] A }\n",
+    "#[derive(Logos)]\n#[logos(export_dir(\"x\"))]\nenum T { #[token(\"a\")] A }\n",
+    "#[derive(Logos)]\n#[logos(type = X)]\nenum T<X> { #[token(\"a\")] A }\n",
+    "#[derive(Logos)]\n#[logos(type(X))]\nenum T<X> { #[token(\"a\")] A }\n",
+    "#[derive(Logos)]\n#[logos(lifetime)]\nenum T<'a> { #[regex(\"a\")] A(&'a str) }\n",
+    "#[derive(Logos)]\n#[logos(lifetime('a))]\nenum T<'a> { #[regex(\"a\")] A(&'a str) }\n",
+    "#[derive(Logos)]\n#[logos(lifetime = 'zz)]\nenum T<'a> { #[regex(\"a\")] A(&'a str) }\n",
+    "#[derive(Logos)]\nenum T<'a, 'b> { #[regex(\"a\")] A(&'a str), #[regex(\"b\")] B(&'b str) }\n",
+    "#[derive(Logos)]\nenum T<X> { #[token(\"a\")] A, #[regex(\"b\", f)] B(X) }\n",
+    "#[derive(Logos)]\n#[logos(type X = u8, type X = u16)]\nenum T<X> { #[regex(\"b\", f)] B(X) }\n",
+    "#[derive(Logos)]\n#[logos(type Y = u8)]\nenum T<X> { #[regex(\"b\", f)] B(X) }\n",
+    "#[derive(Logos)]\nenum T { #[token(\"a\", ignore(case,))] A }\n",
+    "#[derive(Logos)]\nenum T { #[token(\"a\", ignore(case x))] A }\n",
+    "#[derive(Logos)]\nenum T { #[token(\"a\", ignore(case, 1))] A }\n",
+    "#[derive(Logos)]\nenum T { #[token(\"a\", ignore = case)] A }\n",
+    "#[derive(Logos)]\n#[logos(subpattern é = \"a\")]\nenum T { #[regex(\"(?&é)\")] A }\n",
+    "#[derive(Logos)]\n#[logos(subpattern x = \"(\")]\nenum T { #[regex(\"(?&x)\")] A }\n",
+    "#[derive(Logos)]\n#[logos(subpattern x = \"[a-\")]\nenum T { #[token(\"q\")] A }\n",
+    "#[derive(Logos)]\n#[logos(skip \"(\")]\nenum T { #[token(\"q\")] A }\n",
+    "#[derive(Logos)]\n#[logos(skip(\"[z-a]\", priority = 3))]\nenum T { #[token(\"q\")] A }\n",
+    "#[derive(Logos)]\n#[logos(skip(\"a\", f, g))]\nenum T { #[token(\"q\")] A }\n",
+    "#[derive(Logos)]\n#[logos(skip(b\"\\xFF\", ignore(case)))]\nenum T { #[token(\"q\")] A }\n",
+    "#[derive(Logos)]\nenum T { #[token(b\"\\xFF\", ignore(case))] A }\n",
+    "#[derive(Logos)]\n#[logos(utf8 = false)]\nenum T { #[token(b\"\\xFFk\", ignore(case))] A, #[regex(b\"\\xFE+\", ignore(case))] B }\n",
+    "#[derive(Logos)]\nenum T { }\n",
+    "#[derive(Logos)]\nenum T { A, B }\n",
+    "#[derive(Logos)]\n#[logos(skip \" \")]\nenum T { }\n",
+];
+
+/// Well-typed generic definitions (with their own callbacks) that must be accepted AND compile:
+/// exotic field types exercise the type traversal of the derive (arrays, tuples, fn pointers, raw
+/// pointers, trait objects with lifetime bounds, nested generics, explicit / fresh source lifetimes).
+const RAW_CLEAN: &[&str] = &[
+    r#"fn c_arr<'a>(_: &mut Lexer<'a, G<'a, u8>>) -> [u8; 2] { [1, 2] }
+fn c_opt<'a>(lex: &mut Lexer<'a, G<'a, u8>>) -> Option<(u8, &'a str)> { Some((1, lex.slice())) }
+fn c_fn<'a>(_: &mut Lexer<'a, G<'a, u8>>) -> fn(&'a str) -> u8 { |s| s.len() as u8 }
+fn c_ptr<'a>(_: &mut Lexer<'a, G<'a, u8>>) -> *const u8 { std::ptr::null() }
+fn c_box<'a>(_: &mut Lexer<'a, G<'a, u8>>) -> Box<dyn Fn(&'a str) -> u8 + 'a> { Box::new(|s| s.len() as u8) }
+fn c_vec<'a>(lex: &mut Lexer<'a, G<'a, u8>>) -> Vec<&'a str> { vec![lex.slice()] }
+fn c_par<'a>(_: &mut Lexer<'a, G<'a, u8>>) -> (u8) { 3 }
+#[derive(Logos)]
+#[logos(type T = u8)]
+pub enum G<'a, T> {
+    #[regex("a+")]
+    A(&'a str),
+    #[regex("b", c_arr)]
+    B([T; 2]),
+    #[regex("c", c_opt)]
+    C(Option<(T, &'a str)>),
+    #[regex("d", c_fn)]
+    D(fn(&'a str) -> T),
+    #[regex("e", c_ptr)]
+    E(*const T),
+    #[regex("f", c_box)]
+    F(Box<dyn Fn(&'a str) -> T + 'a>),
+    #[regex("g", c_vec)]
+    H(Vec<&'a str>),
+    #[regex("h", c_par)]
+    I((T)),
+}
+"#,
+    r#"pub struct Wrap<'x, 'y, V>(pub &'x str, pub &'y [V]);
+fn c_w<'s, 'y>(lex: &mut Lexer<'s, K<'s, 'y, u16>>) -> Wrap<'s, 'y, u16> { Wrap(lex.slice(), &[]) }
+#[derive(Logos)]
+#[logos(type V = u16, lifetime = 'x)]
+pub enum K<'x, 'y, V> {
+    #[regex("[a-z]+", c_w)]
+    W(Wrap<'x, 'y, V>),
+    #[token("!")]
+    Bang,
+}
+"#,
+    r#"fn c_it<'s>(_: &mut Lexer<'s, M<u32>>) -> Option<std::iter::Empty<u32>> { None }
+#[derive(Logos)]
+#[logos(type N = u32, lifetime = none)]
+pub enum M<N> {
+    #[regex("[0-9]+", |lex| lex.slice().len() as u32)]
+    Num(N),
+    #[regex("x", c_it)]
+    It(std::iter::Empty<N>),
+    #[token("static")]
+    S,
+}
+"#,
+];
+
+pub const ENUM_MARKER: &str = "//---ENUM---";
+
 /// Number of specimens in the exhaustive enumeration of `category_specimen_nth`.
 pub fn category_specimen_count() -> usize {
-    VARIANT_SHAPES.len() + 2 * MALFORMED_ARGS.len() + MALFORMED_ITEMS.len()
+    VARIANT_SHAPES.len() + 2 * MALFORMED_ARGS.len() + MALFORMED_ITEMS.len() + RAW_MALFORMED.len() + RAW_CLEAN.len()
 }
 
 /// The n-th specimen of the fixed list (every variant shape, every malformed argument list in
@@ -444,7 +546,17 @@ pub fn category_specimen_nth(n: usize) -> (String, &'static str) {
         let attr = if n % 2 == 0 { "token" } else { "regex" };
         return (format!("#[derive(Logos)]\nenum T {{\n    #[{attr}({args})]\n    A,\n    #[token(\"b\")]\n    B,\n}}\n"), "malformed");
     }
-    let item = MALFORMED_ITEMS[n - 2 * MALFORMED_ARGS.len()];
+    let n = n - 2 * MALFORMED_ARGS.len();
+    if n >= MALFORMED_ITEMS.len() + RAW_MALFORMED.len() {
+        // helper items first, then the marker, then the enum alone (the derive only ever sees the enum)
+        let src = RAW_CLEAN[n - MALFORMED_ITEMS.len() - RAW_MALFORMED.len()];
+        let at = src.find("#[derive(Logos)]").unwrap();
+        return (format!("{}{}\n{}", &src[..at], ENUM_MARKER, &src[at..]), "ok");
+    }
+    if n >= MALFORMED_ITEMS.len() {
+        return (RAW_MALFORMED[n - MALFORMED_ITEMS.len()].to_string(), "malformed");
+    }
+    let item = MALFORMED_ITEMS[n];
     (format!("#[derive(Logos)]\n#[logos({item})]\nenum T {{\n    #[token(\"a\")]\n    A,\n}}\n"), "malformed")
 }
 
@@ -557,6 +669,10 @@ pub fn fuzz_one(seed: u64, i: usize) -> (Vec<Value>, BTreeMap<String, usize>, Op
         }
         1 => {
             let (src, cat) = category_specimen(&mut rng, i / 4);
+            let src = match src.find(ENUM_MARKER) {
+                Some(at) => src[at + ENUM_MARKER.len()..].to_string(),
+                None => src,
+            };
             let a = analyze::run_generate_source(&src);
             bump(&format!("category:{cat}"), &mut stats);
             let mut d = dummy.clone();
@@ -653,7 +769,11 @@ pub fn rsample_sources(seed: u64, count: usize) -> Vec<(String, String, Vec<Stri
                 }
             }
         };
-        let a = analyze::run_generate_source(&src);
+        let enum_src = match src.find(ENUM_MARKER) {
+            Some(at) => src[at + ENUM_MARKER.len()..].to_string(),
+            None => src.clone(),
+        };
+        let a = analyze::run_generate_source(&enum_src);
         let (kind, msgs) = match a.outcome {
             Outcome::Accepted => ("accepted".to_string(), vec![]),
             Outcome::Rejected(m) => ("rejected".to_string(), m),
